@@ -236,6 +236,8 @@ def parse_exposition(text):
                         break
                     val += ch
                     j += 1
+                if k in labels:
+                    problems.append('label %s repeated in a sample of %s' % (k, name))
                 labels[k] = val
                 i += len(k) + 2 + j + 1
                 if i < len(lab) and lab[i] == ',':
